@@ -393,6 +393,8 @@ void Listener::Archive(Archiver &arc)
     {
         if (arc.Loading())
         {
+            // the listener may already own a list (ClearVars() creates an empty one)
+            delete vars;
             vars = new ScriptVariableList;
         }
 
